@@ -125,3 +125,75 @@ Example c11_grant_type_3_4_is_an_error :
   val dec_intent (pf_intent_bytes 3) = Err /\ val dec_intent (pf_intent_bytes 4) = Err /\
   is_ok (val dec_intent (pf_intent_bytes 1)) = true.
 Proof. repeat split; vm_compute; reflexivity. Qed.
+
+(* ================= extension round: the remaining peer-facing readers (Model/WireMore.v) ================= *)
+From Hop Require Import WireMore WireMoreProofs.
+
+(* codex.getStatus (client side of the exec tube): never fails, never panics, allocates at most
+   1 + 4 + 2 * 65535 bytes whatever the server sends *)
+Theorem c11_status_total : forall s, exists v r, val dec_status s = Ok (v, r).
+Proof. exact dec_status_total. Qed.
+Print Assumptions c11_status_total.
+Theorem c11_status_alloc_bounded : forall s, wf_bytes s = true -> cost dec_status s <= 0 * len s + 131075.
+Proof. intros s W. pose proof (dec_status_cost s W). lia. Qed.
+Print Assumptions c11_status_alloc_bounded.
+
+(* codex.HandleSize (server side of the window-size tube): the loop ends after at most len s / 8 + 1
+   rounds (running out of fuel is Panic in the model), 8 bytes allocated per 8 bytes received *)
+Theorem c11_handle_size_total : forall s, val handle_size s <> Panic /\ val handle_size s <> Err.
+Proof. exact handle_size_total. Qed.
+Print Assumptions c11_handle_size_total.
+Theorem c11_handle_size_alloc_bounded : forall s, cost handle_size s <= 1 * len s + 8.
+Proof. exact handle_size_cost. Qed.
+Print Assumptions c11_handle_size_alloc_bounded.
+Example c11_handle_size_sample :
+  val handle_size ([0;24;0;80;0;0;0;0] ++ [0;50;0;132;1;2;3;4] ++ [9;9;9]) = Ok ([Ws 24 80 0 0; Ws 50 132 258 772], []) /\
+  cost handle_size ([0;24;0;80;0;0;0;0] ++ [0;50;0;132;1;2;3;4] ++ [9;9;9]) = 24.
+Proof. split; vm_compute; reflexivity. Qed.
+
+(* userauth.RequestAuthorization: the reply byte; only the exact confirmation byte grants *)
+Theorem c11_ua_reply_total : forall s, exists v r, val dec_ua_reply s = Ok (v, r).
+Proof. exact dec_ua_reply_total. Qed.
+Print Assumptions c11_ua_reply_total.
+Theorem c11_ua_reply_alloc_bounded : forall s, cost dec_ua_reply s <= 0 * len s + 1.
+Proof. intros s. rewrite dec_ua_reply_cost. lia. Qed.
+Print Assumptions c11_ua_reply_alloc_bounded.
+Theorem c11_ua_reply_grants_only_on_conf : forall s v r,
+  val dec_ua_reply s = Ok (v, r) -> (v = true <-> exists t, s = 1 :: t).
+Proof. exact dec_ua_reply_yes. Qed.
+Print Assumptions c11_ua_reply_grants_only_on_conf.
+
+(* authgrants.ReadUnreliableProxyID *)
+Theorem c11_proxy_id_total : forall s, val dec_proxy_id s <> Panic.
+Proof. exact dec_proxy_id_no_panic. Qed.
+Print Assumptions c11_proxy_id_total.
+Theorem c11_proxy_id_alloc_bounded : forall s, cost dec_proxy_id s <= 0 * len s + 1.
+Proof. intros s. rewrite dec_proxy_id_cost. lia. Qed.
+Print Assumptions c11_proxy_id_alloc_bounded.
+
+(* authgrants.ReadIntentRequest (principal side) / ReadIntentCommunication (target side) *)
+Theorem c11_intent_request_total : forall s, wf_bytes s = true -> val dec_intent_request s <> Panic.
+Proof. exact dec_intent_request_no_panic. Qed.
+Print Assumptions c11_intent_request_total.
+Theorem c11_intent_request_alloc_bounded : forall s, wf_bytes s = true -> cost dec_intent_request s <= 0 * len s + ag_cost_bound.
+Proof. exact dec_intent_request_cost. Qed.
+Print Assumptions c11_intent_request_alloc_bounded.
+Theorem c11_intent_comm_total : forall s, wf_bytes s = true -> val dec_intent_comm s <> Panic.
+Proof. exact dec_intent_comm_no_panic. Qed.
+Print Assumptions c11_intent_comm_total.
+Theorem c11_intent_comm_alloc_bounded : forall s, wf_bytes s = true -> cost dec_intent_comm s <= 0 * len s + ag_cost_bound.
+Proof. exact dec_intent_comm_cost. Qed.
+Print Assumptions c11_intent_comm_alloc_bounded.
+
+(* tubes.Unreliable.ReadMsgUDP: a datagram is copied into the caller's buffer, never beyond it; a longer one
+   is cut to the buffer and flagged (ErrBufOverflow); nothing is allocated *)
+Theorem c11_unrel_read_bounded : forall cap msg, len (fst (unrel_read cap msg)) <= cap.
+Proof. exact unrel_read_bounded. Qed.
+Print Assumptions c11_unrel_read_bounded.
+Theorem c11_unrel_read_fits : forall cap msg, len msg <= cap -> unrel_read cap msg = (msg, true).
+Proof. exact unrel_read_fits. Qed.
+Print Assumptions c11_unrel_read_fits.
+Theorem c11_unrel_read_overflow : forall cap msg, cap < len msg ->
+  snd (unrel_read cap msg) = false /\ len (fst (unrel_read cap msg)) = cap.
+Proof. exact unrel_read_overflow. Qed.
+Print Assumptions c11_unrel_read_overflow.
